@@ -24,6 +24,7 @@ PTie == [o \in Ops |-> CASE o = "a" -> 1 [] OTHER -> 2]
 PAll2 == [o \in Ops |-> 2]
 L4 == [o \in Ops |-> 4]
 L3 == [o \in Ops |-> 3]
+L8 == [o \in Ops |-> 8]
 Per2 == [o \in Ops |-> 2]
 Per3 == [o \in Ops |-> 3]
 Per4 == [o \in Ops |-> 4]
